@@ -504,8 +504,8 @@ Qed.
 (* the valid-block update of the re-lock (repair of F83) invents no block and leaves the lock alone *)
 Lemma rel_relock r s : Rel (relock_unfixed r s) (relock r s).
 Proof.
-  unfold relock. destruct (_ <? _); [|apply Rel_refl].
-  unfold Rel, has_block. cs. repeat split; auto; try lia.
+  rewrite relock_eq. destruct (_ <? _); [|apply Rel_refl].
+  unfold Rel, has_block, relock_unfixed. cs. repeat split; auto; try lia.
   intros b [H|[H|H]]; auto.
 Qed.
 
